@@ -292,6 +292,11 @@ func (converter *Converter) Data(stream *index.Stream, moreDetails bool) (data [
 			return fmt.Errorf("converter (%s): Failed to parse time: %w. Time:\n%s", converter.name, err, convertedPacket.Time)
 		}
 
+		// A packet without content says nothing (and cannot be stored in the cache file).
+		if len(decodedData) == 0 {
+			return nil
+		}
+
 		// Merge with previous packet if both are in the same direction.
 		// Discard the time of this packet in the process.
 		// We don't support two consecutive packets in the same direction in the cache file format.
